@@ -20,6 +20,7 @@ ASSUMPTIONS = [
 
 def knobs(rng):
     return Knobs(
+        p_datadiv=rng.choice([0.0, 0.0, 0.15]),
         p_config=rng.choice([0, 0.3]),
         p_window=rng.choice([0.0, 0.2, 0.35]),
         p_call=rng.choice([0.0, 0.3, 0.5]),
